@@ -1,5 +1,6 @@
 import PyatvModel.Base.Bytes
 import PyatvModel.C16.Model
+import PyatvModel.C16.Timing
 /-
 Line protocol (state: the datagrams of the last `stream` run and its final backlog).
 FRAMES_PER_PACKET and PACKET_BACKLOG_SIZE are the regenerated `Gen.C16` constants.
@@ -26,6 +27,10 @@ FRAMES_PER_PACKET and PACKET_BACKLOG_SIZE are the regenerated `Gen.C16` constant
       → `<latency> ` ++ the answer of `stream`
   ctxreset <rnd> <now>           `context.reset()` (teardown)                 → `<ctx>`
       <ctx> = `<sampleRate> <rtpseq> <startTs> <headTs> <latency> <paddingSent>`
+  ntp <ntp> <rate>               the integer conversions of timing.py on one NTP value
+      → `<sec> <frac> <ntp2ts> <ntp2ms>`
+  ntpnow <sec> <us>              ntp_now() on a clock reading of sec s + us µs since 1970          → `<ntp>`
+  ntpof <sec> <frac>             the value ntp_now assembles (`sec << 32 | frac`)   → `<ntp>`
   fifo <limit> <ops csv>         ops `s<key>` (set, value = key as 2 bytes), `g<key>`, `c<key>`
       → per op `ok|raise`, `<hex>|raise`, `1|0`; then `|` and the keys
   reset
@@ -167,6 +172,20 @@ def handle (s : DState) (ws : List String) : DState × String :=
         match backlogAfter Gen.C16.packetBacklogSize (s.sent.take k) with
         | none => (s, "raised")
         | some bl => (s, showCtrl (controlReceived bl d))
+    | _, _ => (s, "bad-op")
+  | ["ntp", n, r] =>
+    match n.toNat?, r.toNat? with
+    | some n, some r =>
+      let p := Timing.ntp2parts n
+      (s, s!"{p.1} {p.2} {Timing.ntp2ts n r} {Timing.ntp2ms n}")
+    | _, _ => (s, "bad-op")
+  | ["ntpnow", a, b] =>
+    match a.toNat?, b.toNat? with
+    | some a, some b => (s, s!"{Timing.ntpNow a b}")
+    | _, _ => (s, "bad-op")
+  | ["ntpof", a, b] =>
+    match a.toNat?, b.toNat? with
+    | some a, some b => (s, s!"{Timing.ntpOf a b}")
     | _, _ => (s, "bad-op")
   | ["fifo", limit, ops] =>
     match limit.toNat? with
